@@ -1,7 +1,7 @@
 #!/bin/bash
 # seedconfirm.sh <ID> : confirm a sub-agent's seeded change in its scratch worktree /tmp/seed/<ID>
 # (builds, existing tests pass, demonstration fails with the change and passes without it).
-ID=$1; W=/tmp/seed/$ID
+ID=$1; W=${SEEDROOT:-/tmp/seed}/$ID
 export GOFLAGS=-mod=readonly GOPROXY=off GOSUMDB=off GOTOOLCHAIN=local
 cd $W || exit 2
 [ -f change.patch ] || { echo "no change.patch"; exit 2; }
@@ -16,9 +16,9 @@ run_demo() {
   fi
   for t in $(ls */demo_test.go demo_test.go 2>/dev/null); do go test -count=1 -run Demo ./$(dirname $t) > $1.gotest 2>&1; echo "gotest rc=$?" >> $1; done
 }
-run_demo /tmp/seed/$ID.with
+run_demo ${SEEDROOT:-/tmp/seed}/$ID.with
 git checkout -q -- $(git diff --name-only)
-run_demo /tmp/seed/$ID.without
+run_demo ${SEEDROOT:-/tmp/seed}/$ID.without
 git apply change.patch
-echo "== demo diff (without vs with):"; diff /tmp/seed/$ID.without /tmp/seed/$ID.with | head -20
-if [ -f demo.expected ]; then echo "== expected vs without:"; diff <(grep -v '^status=' /tmp/seed/$ID.without) demo.expected | head -5; fi
+echo "== demo diff (without vs with):"; diff ${SEEDROOT:-/tmp/seed}/$ID.without ${SEEDROOT:-/tmp/seed}/$ID.with | head -20
+if [ -f demo.expected ]; then echo "== expected vs without:"; diff <(grep -v '^status=' ${SEEDROOT:-/tmp/seed}/$ID.without) demo.expected | head -5; fi
